@@ -8,7 +8,7 @@ From Coq Require Import List ZArith Bool Lia.
 From Sakura.Model Require Import Base Cursor Length Event Song Token LoopMachine LexCore Tie RunCore.
 From Sakura.Spec Require Import MacroSpec LoopSpec.
 From Sakura.Gen Require Import VarRows DocMacros.
-From Sakura.Proofs Require Import LoopP.
+From Sakura.Proofs Require Import LoopP ExtP.
 Import ListNotations.
 Open Scope Z_scope.
 
@@ -1054,8 +1054,7 @@ Proof.
   intros Hq. destruct t; try discriminate; cbn [step_song];
   first
   [ solve [intros E; injection E as <-; reflexivity]
-  | solve [unfold exec_note, exec_note_n, emit_note;
-           repeat match goal with |- context [if ?b then _ else _] => destruct b end;
+  | solve [unfold exec_note, exec_note_n; destr_lets; unfold emit_note; destr_lets;
            try discriminate; intros E; injection E as <-; reflexivity]
   | solve [unfold exec_harmony_end, change_cur_track, settle_octave_once, tempo_change, track_sync;
            repeat match goal with |- context [if ?b then _ else _] => destruct b end;
